@@ -80,7 +80,17 @@ func memberScenarios(tier string, oracles []string, updates int) []*simScenario 
 	return out
 }
 
+func scenDurableCut() *simScenario {
+	cut := scenRepl(replSeed{"durable-cut", []string{"T:1", "run", "block:1:3", "update:1", "update:1"}}, 2, true, 0, 0, 3)
+	cut.Name = "durable-cut"
+	cut.Menu = simMenu{Cuts: true, Drops: true}
+	cut.Final = ""
+	cut.Oracles = []string{"durable"}
+	return cut
+}
+
 func init() {
+	simScenarios["durable-cut"] = scenDurableCut()
 	for _, s := range memberSeeds {
 		simScenarios["member-"+s.name] = scenMember(s, 1, 1, 0, false, []string{"durable"}, 1)
 		simScenarios[fmt.Sprintf("member-%s-db", s.name)] = scenMember(s, 2, 2, 0, true, []string{"durable"}, 1)
@@ -103,6 +113,9 @@ func init() {
 	c06 := &simCheckSpec{Prop: "C06", Oracles: []string{"durable"},
 		Scenarios: func(t string) []*simScenario {
 			out := memberScenarios(t, []string{"durable"}, 1)
+			// a request carrying two uncommitted entries breaks in the middle; commitment then rests on what the
+			// follower kept (n3 is cut off, so n2's acknowledgement decides)
+			out = append([]*simScenario{scenDurableCut()}, out...)
 			// flushing after the log was compacted / reset by a snapshot installation
 			for _, name := range []string{"lagging", "full"} {
 				sc := scenSnap(snapSeeds[snapSeedIndex(name)], 2, true, true, 1)
